@@ -26,15 +26,26 @@ subprocess.run(['git', '-C', '/repo', 'worktree', 'remove', '--force', scratch],
 rc, o = run(['git', '-C', '/repo', 'worktree', 'add', '--detach', scratch, 'HEAD'])
 assert rc == 0, o
 try:
-    shutil.copytree(src, os.path.join(scratch, '_seed'))
+    # keep the layout the demos were written for (<worktree>/_out/<variant>/demo.py) and make hard-coded
+    # worktree paths point at the scratch copy
+    vdir = os.path.join(scratch, '_out', os.path.basename(src))
+    os.makedirs(os.path.dirname(vdir), exist_ok=True)
+    shutil.copytree(src, vdir)
+    os.symlink(vdir, os.path.join(scratch, '_seed'))
+    import re
+    dp = os.path.join(vdir, 'demo.py')
+    txt = open(dp).read()
+    txt2 = re.sub(r'/tmp/mut_C\d\d', scratch, txt)
+    if txt2 != txt:
+        open(dp, 'w').write(txt2)
     # demo on the unchanged code
-    rc, o = run(['/venv/bin/python', '_seed/demo.py'], cwd=scratch)
+    rc, o = run(['/venv/bin/python', os.path.join('_out', os.path.basename(src), 'demo.py')], cwd=scratch)
     meta['ran']['demo_unpatched'] = {'exit': rc, 'tail': o[-300:]}
     rc2, o2 = run(['git', 'apply', '_seed/patch.diff'], cwd=scratch)
     meta['ran']['git_apply'] = {'exit': rc2, 'tail': o2[-300:]}
     rc3, o3 = run(['/venv/bin/python', '-m', 'pytest', '-q', '-p', 'no:cacheprovider'], cwd=scratch)
     meta['ran']['pytest_patched'] = {'exit': rc3, 'tail': o3.strip().splitlines()[-1] if o3.strip() else ''}
-    rc4, o4 = run(['/venv/bin/python', '_seed/demo.py'], cwd=scratch)
+    rc4, o4 = run(['/venv/bin/python', os.path.join('_out', os.path.basename(src), 'demo.py')], cwd=scratch)
     meta['ran']['demo_patched'] = {'exit': rc4, 'tail': o4[-400:]}
     valid = rc == 0 and rc2 == 0 and rc3 == 0 and '141 passed' in o3 and rc4 != 0
     meta['confirmed'] = valid
@@ -59,6 +70,8 @@ try:
     for f in ('patch.diff', 'demo.py', 'README.md'):
         if os.path.exists(os.path.join(src, f)):
             shutil.copy(os.path.join(src, f), os.path.join(out, f))
+    meta['how_to_run_demo'] = ('copy this directory to <worktree>/_out/<variant>/ and run `cd <worktree> && /venv/bin/python '
+                               '_out/<variant>/demo.py`; a demo that names /tmp/mut_CXX expects the worktree at that path')
     try:
         readme = open(os.path.join(src, 'README.md')).read()
         meta['needs_to_manifest'] = readme[:1200]
